@@ -43,9 +43,10 @@ const (
 	OpBOr
 	OpBNot
 	OpSelect // select from a named havoc array: name = array, a = index; w = element width
+	OpApply  // application of an uninterpreted function: name(a); w = result width
 )
 
-var opNames = [...]string{"const", "var", "bvadd", "bvsub", "bvmul", "bvudiv", "bvurem", "bvsdiv", "bvsrem", "bvand", "bvor", "bvxor", "bvnot", "bvneg", "bvshl", "bvlshr", "bvashr", "concat", "extract", "zero_extend", "sign_extend", "ite", "=", "bvult", "bvule", "bvslt", "bvsle", "and", "or", "not", "select"}
+var opNames = [...]string{"const", "var", "bvadd", "bvsub", "bvmul", "bvudiv", "bvurem", "bvsdiv", "bvsrem", "bvand", "bvor", "bvxor", "bvnot", "bvneg", "bvshl", "bvlshr", "bvashr", "concat", "extract", "zero_extend", "sign_extend", "ite", "=", "bvult", "bvule", "bvslt", "bvsle", "and", "or", "not", "select", "apply"}
 
 type Term struct {
 	op      Op
@@ -56,6 +57,7 @@ type Term struct {
 	id      int
 	umax    uint64 // unsigned upper bound (valid for w>=1)
 	emitted int    // solver generation in which a define-fun was emitted
+	hasSel  bool   // contains an array select
 }
 
 type termKey struct {
@@ -80,6 +82,8 @@ type TermStore struct {
 	tTrue  *Term
 	tFalse *Term
 	sel    map[string][]*Term
+	ufs    map[string][2]uint8
+	subst  map[*Term]*Term // per-path facts: term -> constant implied by the path condition
 }
 
 func NewTermStore() *TermStore {
@@ -106,11 +110,17 @@ func tid(t *Term) int {
 func (ts *TermStore) mk(op Op, w uint8, a, b, c *Term, val uint64, name string) *Term {
 	k := termKey{op, w, tid(a), tid(b), tid(c), val, name}
 	if t, ok := ts.tab[k]; ok {
+		if len(ts.subst) > 0 {
+			if r, ok := ts.subst[t]; ok {
+				return r
+			}
+		}
 		return t
 	}
 	t := &Term{op: op, w: w, a: a, b: b, c: c, val: val, name: name, id: ts.nextID}
 	ts.nextID++
 	t.umax = ts.computeUmax(t)
+	t.hasSel = op == OpSelect || op == OpApply || (a != nil && a.hasSel) || (b != nil && b.hasSel) || (c != nil && c.hasSel)
 	ts.tab[k] = t
 	return t
 }
@@ -262,6 +272,16 @@ func (ts *TermStore) Select(a Arr, idx *Term) *Term {
 	return t
 }
 
+// Apply builds name(arg) for an uninterpreted function with the given result width.
+func (ts *TermStore) Apply(name string, w uint8, arg *Term) *Term {
+	arg = ts.rep(arg)
+	if ts.ufs == nil {
+		ts.ufs = map[string][2]uint8{}
+	}
+	ts.ufs[name] = [2]uint8{arg.w, w}
+	return ts.mk(OpApply, w, arg, nil, nil, 0, name)
+}
+
 func (ts *TermStore) binConst(op Op, w uint8, x, y uint64) (uint64, bool) {
 	m := mask(w)
 	switch op {
@@ -336,7 +356,19 @@ func isCommutative(op Op) bool {
 	return false
 }
 
+// rep replaces a term by the constant the current path condition implies for it, if known.
+func (ts *TermStore) rep(t *Term) *Term {
+	if len(ts.subst) == 0 || t.op == OpConst {
+		return t
+	}
+	if r, ok := ts.subst[t]; ok {
+		return r
+	}
+	return t
+}
+
 func (ts *TermStore) Bin(op Op, a, b *Term) *Term {
+	a, b = ts.rep(a), ts.rep(b)
 	if a.w != b.w {
 		panic(fmt.Sprintf("width mismatch %s: %d vs %d", opNames[op], a.w, b.w))
 	}
@@ -353,6 +385,31 @@ func (ts *TermStore) Bin(op Op, a, b *Term) *Term {
 		}
 	}
 	m := mask(w)
+	// narrow expensive arithmetic when operand ranges allow it
+	if w > 8 && (op == OpUDiv || op == OpURem || op == OpMul) && !a.IsConst() && !(op == OpMul && b.IsConst()) {
+		need := bits.Len64(a.umax)
+		if l := bits.Len64(b.umax); l > need {
+			need = l
+		}
+		if op == OpMul {
+			hi, lo := bits.Mul64(a.umax, b.umax)
+			if hi != 0 {
+				need = 64
+			} else {
+				need = bits.Len64(lo)
+			}
+		}
+		if need < 1 {
+			need = 1
+		}
+		// round up to a multiple of 8 to keep the number of distinct widths small
+		k := uint8((need + 7) / 8 * 8)
+		if k < w {
+			na := ts.Extract(a, k-1, 0)
+			nb := ts.Extract(b, k-1, 0)
+			return ts.ZExt(ts.Bin(op, na, nb), w)
+		}
+	}
 	switch op {
 	case OpAdd:
 		if b.IsConst() && b.val == 0 {
@@ -543,6 +600,7 @@ func (ts *TermStore) Or(a, b *Term) *Term  { return ts.Bin(OpOr, a, b) }
 func (ts *TermStore) Xor(a, b *Term) *Term { return ts.Bin(OpXor, a, b) }
 
 func (ts *TermStore) Not(a *Term) *Term {
+	a = ts.rep(a)
 	if a.IsConst() {
 		return ts.Const(a.w, ^a.val)
 	}
@@ -553,6 +611,7 @@ func (ts *TermStore) Not(a *Term) *Term {
 }
 
 func (ts *TermStore) Neg(a *Term) *Term {
+	a = ts.rep(a)
 	if a.IsConst() {
 		return ts.Const(a.w, -a.val)
 	}
@@ -560,6 +619,7 @@ func (ts *TermStore) Neg(a *Term) *Term {
 }
 
 func (ts *TermStore) Concat(hi, lo *Term) *Term {
+	hi, lo = ts.rep(hi), ts.rep(lo)
 	w := hi.w + lo.w
 	if w > 64 {
 		panic("concat too wide")
@@ -590,6 +650,7 @@ func (ts *TermStore) Concat(hi, lo *Term) *Term {
 }
 
 func (ts *TermStore) Extract(a *Term, hi, lo uint8) *Term {
+	a = ts.rep(a)
 	if hi < lo || hi >= a.w {
 		panic(fmt.Sprintf("bad extract %d %d of width %d", hi, lo, a.w))
 	}
@@ -647,6 +708,7 @@ func (ts *TermStore) Extract(a *Term, hi, lo uint8) *Term {
 }
 
 func (ts *TermStore) ZExt(a *Term, w uint8) *Term {
+	a = ts.rep(a)
 	if w == a.w {
 		return a
 	}
@@ -663,6 +725,7 @@ func (ts *TermStore) ZExt(a *Term, w uint8) *Term {
 }
 
 func (ts *TermStore) SExt(a *Term, w uint8) *Term {
+	a = ts.rep(a)
 	if w == a.w {
 		return a
 	}
@@ -693,6 +756,7 @@ func (ts *TermStore) Resize(a *Term, w uint8, signed bool) *Term {
 }
 
 func (ts *TermStore) Ite(c, a, b *Term) *Term {
+	c, a, b = ts.rep(c), ts.rep(a), ts.rep(b)
 	if c.w != 0 {
 		panic("ite cond not bool")
 	}
@@ -725,6 +789,7 @@ func (ts *TermStore) Ite(c, a, b *Term) *Term {
 }
 
 func (ts *TermStore) Eq(a, b *Term) *Term {
+	a, b = ts.rep(a), ts.rep(b)
 	if a.w != b.w {
 		panic(fmt.Sprintf("eq width mismatch %d %d", a.w, b.w))
 	}
@@ -782,6 +847,7 @@ func (ts *TermStore) Eq(a, b *Term) *Term {
 }
 
 func (ts *TermStore) Ult(a, b *Term) *Term {
+	a, b = ts.rep(a), ts.rep(b)
 	if a.w != b.w {
 		panic("ult width mismatch")
 	}
@@ -828,6 +894,7 @@ func (ts *TermStore) Ult(a, b *Term) *Term {
 func (ts *TermStore) Ule(a, b *Term) *Term { return ts.BNot(ts.Ult(b, a)) }
 
 func (ts *TermStore) Slt(a, b *Term) *Term {
+	a, b = ts.rep(a), ts.rep(b)
 	if a.w != b.w {
 		panic("slt width mismatch")
 	}
@@ -854,6 +921,7 @@ func (ts *TermStore) Slt(a, b *Term) *Term {
 func (ts *TermStore) Sle(a, b *Term) *Term { return ts.BNot(ts.Slt(b, a)) }
 
 func (ts *TermStore) BNot(a *Term) *Term {
+	a = ts.rep(a)
 	if a.w != 0 {
 		panic("bnot on bv")
 	}
@@ -867,6 +935,7 @@ func (ts *TermStore) BNot(a *Term) *Term {
 }
 
 func (ts *TermStore) BAnd(a, b *Term) *Term {
+	a, b = ts.rep(a), ts.rep(b)
 	if a.w != 0 || b.w != 0 {
 		panic("band on bv")
 	}
@@ -895,6 +964,7 @@ func (ts *TermStore) BAnd(a, b *Term) *Term {
 }
 
 func (ts *TermStore) BOr(a, b *Term) *Term {
+	a, b = ts.rep(a), ts.rep(b)
 	if a.w != 0 || b.w != 0 {
 		panic("bor on bv")
 	}
@@ -971,6 +1041,8 @@ func (t *Term) body() string {
 		return "(ite " + t.a.ref() + " " + t.b.ref() + " " + t.c.ref() + ")"
 	case OpSelect:
 		return "(select " + t.name + " " + t.a.ref() + ")"
+	case OpApply:
+		return "(" + t.name + " " + t.a.ref() + ")"
 	}
 	return "(" + opNames[t.op] + " " + t.a.ref() + " " + t.b.ref() + ")"
 }
@@ -983,7 +1055,7 @@ func (t *Term) String() string {
 }
 
 func (t *Term) str(sb *strings.Builder, depth int) {
-	if depth > 12 {
+	if depth > 12 || sb.Len() > 4000 {
 		sb.WriteString("…")
 		return
 	}
@@ -996,8 +1068,8 @@ func (t *Term) str(sb *strings.Builder, depth int) {
 		t.a.str(sb, depth+1)
 		sb.WriteString(")")
 		return
-	case OpSelect:
-		sb.WriteString("(select " + t.name + " ")
+	case OpSelect, OpApply:
+		sb.WriteString("(" + opNames[t.op] + " " + t.name + " ")
 		t.a.str(sb, depth+1)
 		sb.WriteString(")")
 		return
@@ -1030,6 +1102,9 @@ func (ts *TermStore) Eval(t *Term, env map[string]uint64, memo map[*Term]uint64)
 	case OpSelect:
 		idx := ts.Eval(t.a, env, memo)
 		r = env[fmt.Sprintf("%s[%d]", t.name, idx)] & mask(t.w)
+	case OpApply:
+		arg := ts.Eval(t.a, env, memo)
+		r = env[fmt.Sprintf("%s(%d)", t.name, arg)] & mask(t.w)
 	case OpNot:
 		r = ^ts.Eval(t.a, env, memo) & mask(t.w)
 	case OpNeg:
@@ -1081,4 +1156,49 @@ func b2u(b bool) uint64 {
 		return 1
 	}
 	return 0
+}
+
+// learn records that c holds on the current path (c has been added to the path condition).
+func (ts *TermStore) learn(c *Term) {
+	if ts.subst == nil {
+		ts.subst = map[*Term]*Term{}
+	}
+	if c.IsConst() {
+		return
+	}
+	ts.subst[c] = ts.tTrue
+	switch c.op {
+	case OpBNot:
+		ts.subst[c.a] = ts.tFalse
+		if c.a.op == OpBOr { // not(a or b) => not a, not b
+			ts.learn(ts.bnotRaw(c.a.a))
+			ts.learn(ts.bnotRaw(c.a.b))
+		}
+	case OpBAnd:
+		ts.learn(c.a)
+		ts.learn(c.b)
+	case OpEq:
+		if c.b.IsConst() && !c.a.IsConst() {
+			ts.subst[c.a] = c.b
+		}
+	}
+	if c.op != OpBNot {
+		n := ts.bnotRaw(c)
+		ts.subst[n] = ts.tFalse
+	}
+}
+
+// bnotRaw builds not(a) without consulting the substitution map.
+func (ts *TermStore) bnotRaw(a *Term) *Term {
+	if a.IsConst() {
+		return ts.Bool(a.val == 0)
+	}
+	if a.op == OpBNot {
+		return a.a
+	}
+	saved := ts.subst
+	ts.subst = nil
+	r := ts.mk(OpBNot, 0, a, nil, nil, 0, "")
+	ts.subst = saved
+	return r
 }
